@@ -69,6 +69,8 @@ MUTANTS = [
      "\tcase len(sig) <= 0xff:\n\t\tpush_sig_scr = append(push_sig_scr, btc.OP_PUSHDATA1, byte(len(sig)))", "\tcase len(sig) <= 0xff:\n\t\tpush_sig_scr = append(push_sig_scr, byte(len(sig)))"),
     ("M27", "CHECKSIGADD adds one even for an empty signature", "lib/script/script.go",
      "\t\t\t\tif success {\n\t\t\t\t\tnum++", "\t\t\t\tif success || len(sig) == 0 {\n\t\t\t\t\tnum++"),
+    ("M28", "seeded C01-1 in short: non-empty signature on an unknown-type tapscript key is not charged", "lib/script/checker.go",
+     "\tsuccess = len(sig) > 0\n\tif success {", "\tsuccess = len(sig) > 0\n\tif success && len(pubkey) == 32 {"),
     ("M12", "P2SH-witness scriptSig exactness check dropped", "lib/script/script.go",
      "if !bytes.Equal(sigScr, bt.Bytes()) {", "if false && !bytes.Equal(sigScr, bt.Bytes()) {"),
 ]
